@@ -117,6 +117,8 @@ class Interp:
         return v
 
     def _lift(self, obj):
+        if getattr(obj, '__module__', None) == 'typing' and hasattr(obj, '__origin__'):
+            return self.lift(obj.__origin__)
         if isinstance(obj, type):
             if obj in KINDMAP:
                 return VKind(KINDMAP[obj])
@@ -149,7 +151,15 @@ class Interp:
 
     def lift_function(self, f):
         node = self.src.funcdef_of(f)
-        return VFunc('def', node=node, globs=f.__globals__, pyfunc=f, closure_env=None,
+        cenv = None
+        if f.__closure__:
+            cenv = Env(f.__globals__, None, f.__module__)
+            for nm, cell in zip(f.__code__.co_freevars, f.__closure__):
+                try:
+                    cenv.vars[nm] = self.lift(cell.cell_contents)
+                except ValueError:
+                    pass
+        return VFunc('def', node=node, globs=f.__globals__, pyfunc=f, closure_env=cenv,
                      name=f.__name__, qual=f'{f.__module__}.{f.__qualname__}')
 
     # ------------------------------------------------------------------ helpers
@@ -333,6 +343,9 @@ class Interp:
         if name == 'add' and isinstance(a, (VSeq, VTuple, VList)) and isinstance(b, (VSeq, VTuple, VList)):
             return self.B.seq_concat(self, a, b)
         sc = (VNone, VBool, VInt, VStr, VAny)
+        if name == 'pow' and concrete_int(b) == 2 and isinstance(a, sc):
+            self.assumption('A-real: x ** 2 is treated as x * x (machine arithmetic treated as mathematical)')
+            return self.binary('mul', a, a)
         if isinstance(a, sc) and isinstance(b, sc):
             x, y = to_pyval(a), to_pyval(b)
             un = binop(OP[name], x, y)
@@ -441,6 +454,13 @@ class Interp:
         raise Unsupported(f'is on {a!r}, {b!r}')
 
     def py_eq(self, a, b):
+        if isinstance(a, VObj) and a.tag == 'kindset' or isinstance(b, VObj) and b.tag == 'kindset':
+            ks, other = (a, b) if isinstance(a, VObj) and a.tag == 'kindset' else (b, a)
+            if isinstance(other, VSet) and len(other.items) == 1 and isinstance(other.items[0], VKind):
+                return z3.And(ks.fields['nonempty'], ks.fields['kind'].t == other.items[0].t)
+            if isinstance(other, VSet) and not other.items:
+                return z3.Not(ks.fields['nonempty'])
+            raise Unsupported('kind-set comparison')
         if isinstance(a, VKind) and isinstance(b, (VClass,)) or isinstance(b, VKind) and isinstance(a, VClass):
             return z3.BoolVal(False)
         if isinstance(a, VFunc) and isinstance(b, VFunc):
@@ -582,6 +602,8 @@ class Interp:
             return VFunc('builtin', name=f'method:{attr}', obj=None, self_=v)
         if isinstance(v, VFunc) and attr == '__name__':
             return VStr(v.name)
+        if isinstance(v, VNone):
+            self.raise_(AttributeError)
         raise Unsupported(f'attribute {attr} of {v!r}')
 
     def dtype_cls(self):
